@@ -493,3 +493,27 @@ def finalize(m, tier):
                          'exhaustive_over': f'all call sequences of length {4 if tier == "quick" else 5} over the 31-symbol alphabet '
                                             '(shorter ones are their prefixes); random sequences of length 6-14 are sampled',
                          'transitions_note': 'distinct (automaton state, symbol) pairs, summed over shards'}}
+
+
+# --------------------------------------------------------------------------------------------------
+# directed edge workloads shared between several checks (pv/edges.py)
+
+_plan_without_edges, _run_job_without_edges = plan, run_job
+_required_without_edges = globals().get('required_buckets')
+
+
+def required_buckets(tier):
+    return (list(_required_without_edges(tier)) if _required_without_edges else []) + [ID + '/edge/']
+
+
+def plan(tier, seed):
+    from .common import edges_jobs
+    return _plan_without_edges(tier, seed) + edges_jobs(tier)
+
+
+def run_job(job):
+    if job['kind'] == 'edges':
+        from pv.edges import edges
+        from .common import run_cases
+        return run_cases(job, edges)
+    return _run_job_without_edges(job)
